@@ -7,6 +7,7 @@ import (
 	"encoding/hex"
 	"encoding/json"
 	"fmt"
+	"io"
 	"os"
 	"os/exec"
 	"runtime"
@@ -62,6 +63,8 @@ type scnResult struct {
 	RealRuns        int               `json:"real_runs"`
 	RealInSet       int               `json:"real_in_set"`
 	RealOutside     []string          `json:"real_outside"`
+	PartialBound    int               `json:"partial_bound"`
+	PartialExecs    int               `json:"partial_execs"`
 	RealRaces       int               `json:"real_races"`
 	RealRaceSamples []string          `json:"real_race_samples"`
 	OutcomeSamp     map[string]string `json:"-"`
@@ -152,7 +155,7 @@ func evaluate(prop string, sc *Scn, x *vrt.Sched, choices []int, res *scnResult,
 		for _, k := range keys {
 			r := x.Races[k]
 			report(Finding{Prop: "C15", Key: "race " + k, Detail: fmt.Sprintf("unordered conflicting accesses to %s: %s || %s", r.Loc, r.A, r.B)})
-			if p := raceOwner(r.Loc); p != "" {
+			for _, p := range strings.Fields(raceOwner(r.Loc)) {
 				report(Finding{Prop: p, Key: "race " + k, Detail: fmt.Sprintf("unordered conflicting accesses to %s: %s || %s", r.Loc, r.A, r.B)})
 			}
 		}
@@ -163,7 +166,7 @@ func evaluate(prop string, sc *Scn, x *vrt.Sched, choices []int, res *scnResult,
 func raceOwner(loc string) string {
 	switch {
 	case strings.HasPrefix(loc, "bufio.Writer"), strings.HasPrefix(loc, "ResponseWriter."):
-		return "C05"
+		return "C05 C04"
 	case loc == "conn.reader" || loc == "conn.writer" || loc == "conn.netConn" || strings.HasPrefix(loc, "bufio.Reader"):
 		return "C13"
 	case loc == "sync.WaitGroup":
@@ -291,13 +294,24 @@ func main() {
 			fmt.Fprintln(os.Stderr, err)
 			os.Exit(2)
 		}
+		// the code under test may print to stdout (the test directory does): the result goes to its own descriptor
+		out := os.NewFile(3, "result")
+		if dn, err := os.OpenFile(os.DevNull, os.O_WRONLY, 0); err == nil {
+			os.Stdout = dn
+		}
 		if j.Mode == "expand" {
-			json.NewEncoder(os.Stdout).Encode(runExpand(&j))
+			json.NewEncoder(out).Encode(runExpand(&j))
 			return
 		}
-		json.NewEncoder(os.Stdout).Encode(runJob(&j))
+		json.NewEncoder(out).Encode(runJob(&j))
 		return
-	case "real": // sched real <scenario> <prop> : one free-running execution on real sockets (real-socket build only)
+	case "real":
+		realStdout = os.Stdout
+		if dn, err := os.OpenFile(os.DevNull, os.O_WRONLY, 0); err == nil {
+			os.Stdout = dn
+		}
+		os.Exit(runReal(os.Args[2], os.Args[3]))
+	case "real-unused": // sched real <scenario> <prop> : one free-running execution on real sockets (real-socket build only)
 		os.Exit(runReal(os.Args[2], os.Args[3]))
 	case "all": // sched all <bound> : every scenario in-process, all oracles (debugging)
 		var b int
@@ -362,42 +376,67 @@ func main() {
 	deadline := time.Now().Add(budget)
 	var all []*scnResult
 	exhaustive := true
-	for _, sc := range scs {
+	for si, sc := range scs {
+		lastExecs := -1
 		B := boundOf(sc, tier)
 		total := newRes(sc, B)
 		idx := map[string]*ev.Violation{}
-		bounds := []int{0, 1}
-		if B < 0 {
-			bounds = []int{0, 1, 2, -1}
-		} else {
-			for b := 2; b <= B; b++ {
-				bounds = append(bounds, b)
+		// time slice of this scenario: an equal share of what is left (unused time rolls over to later scenarios)
+		left := len(scs) - si
+		scDeadline := time.Now().Add(time.Until(deadline) / time.Duration(left))
+		var bounds []int
+		switch {
+		case tier == "thorough":
+			// at least the scenario's bound, then as deep as the slice allows, finally every schedule
+			bounds = []int{0, 1, 2, 3, 4, 5, 6, 8, -1}
+			if B == 0 {
+				bounds = []int{0}
 			}
-			if B < 1 {
-				bounds = bounds[:B+1]
+		case B < 0:
+			bounds = []int{0, 1, 2, -1}
+		default:
+			for b := 0; b <= B; b++ {
+				bounds = append(bounds, b)
 			}
 		}
 		completed := -2
 		for _, b := range bounds {
-			if time.Now().After(deadline) {
+			if time.Now().After(scDeadline) {
 				total.CapHit = true
 				break
 			}
-			res := exploreSharded(prop, sc, b, deadline)
-			// the last bound's numbers are the scenario's (lower bounds are subsets)
+			res := exploreSharded(prop, sc, b, scDeadline)
+			if res.CapHit {
+				// this bound did not complete: keep the numbers of the last completed bound, remember the cap
+				for _, v := range res.Viol {
+					if _, ok := idx[v.Key]; !ok {
+						idx[v.Key] = v
+						total.Viol = append(total.Viol, v)
+					}
+				}
+				total.CapHit = true
+				total.Inconclusive = total.Inconclusive || res.Inconclusive
+				total.PartialBound, total.PartialExecs = b, res.Execs
+				break
+			}
+			// the last completed bound's numbers are the scenario's (lower bounds are subsets)
 			total.Execs, total.Steps, total.States, total.Pruned, total.Horizons, total.Deadlocks, total.Crashes = 0, 0, 0, 0, 0, 0, 0
 			total.Outcomes = map[string]int{}
 			total.ClientOutc = map[string]int{}
 			merge(total, res, idx)
-			if res.CapHit {
-				total.CapHit = true
+			completed = b
+			if b >= 2 && res.Execs > 0 && res.Pruned == 0 && res.Execs == lastExecs {
+				completed = -1 // a higher bound found no new schedule: the tree is exhausted, every schedule was explored
 				break
 			}
-			completed = b
+			lastExecs = res.Execs
 		}
 		total.Bound = completed
-		if total.CapHit || total.Horizons > 0 {
+		if (total.CapHit && tier != "thorough") || total.Horizons > 0 || total.Inconclusive || completed == -2 {
 			exhaustive = false
+		}
+		if tier == "thorough" && completed != -1 {
+			exhaustive = false // thorough aims at all schedules; anything less is reported as a bound, not as exhaustive
 		}
 		realWG.Add(1)
 		go func(sc *Scn, total *scnResult) { // real-socket replays run beside the exploration of the next scenarios
@@ -429,7 +468,7 @@ func main() {
 		} else if t.Bound == -2 {
 			bc = "none"
 		}
-		per = append(per, map[string]interface{}{"scenario": t.Name, "executions": t.Execs, "scheduling_steps": t.Steps, "distinct_states": t.States, "pruned_prefixes": t.Pruned, "distinct_observation_logs": len(t.Outcomes), "deviation_bound_completed": bc, "cap_hit": t.CapHit, "inconclusive_worker_failure": t.Inconclusive, "horizon_hits": t.Horizons, "executions_ending_in_deadlock": t.Deadlocks, "executions_with_thread_panic": t.Crashes, "distinct_client_visible_outcomes": len(t.ClientOutc), "real_stack_replays": t.RealRuns, "real_stack_replays_with_outcome_in_model_set": t.RealInSet, "real_stack_outcomes_outside_explored_set": t.RealOutside, "go_race_detector_reports_in_real_stack_replays": t.RealRaces, "go_race_detector_report_samples": t.RealRaceSamples})
+		per = append(per, map[string]interface{}{"scenario": t.Name, "executions": t.Execs, "scheduling_steps": t.Steps, "distinct_states": t.States, "pruned_prefixes": t.Pruned, "distinct_observation_logs": len(t.Outcomes), "deviation_bound_completed": bc, "cap_hit": t.CapHit, "next_bound_started_but_not_completed": t.PartialBound, "executions_in_the_uncompleted_bound": t.PartialExecs, "inconclusive_worker_failure": t.Inconclusive, "horizon_hits": t.Horizons, "executions_ending_in_deadlock": t.Deadlocks, "executions_with_thread_panic": t.Crashes, "distinct_client_visible_outcomes": len(t.ClientOutc), "real_stack_replays": t.RealRuns, "real_stack_replays_with_outcome_in_model_set": t.RealInSet, "real_stack_outcomes_outside_explored_set": t.RealOutside, "go_race_detector_reports_in_real_stack_replays": t.RealRaces, "go_race_detector_report_samples": t.RealRaceSamples})
 		realRaces += t.RealRaces
 		realRuns += t.RealRuns
 		realIn += t.RealInSet
@@ -514,8 +553,20 @@ func runChild(j *job, out interface{}) error {
 	cmd.Stdin = strings.NewReader(string(in))
 	cmd.Stderr = os.Stderr
 	cmd.Env = append(os.Environ(), "GOMAXPROCS=1")
-	b, err := cmd.Output()
+	pr, pw, err := os.Pipe()
 	if err != nil {
+		return err
+	}
+	cmd.ExtraFiles = []*os.File{pw}
+	if err := cmd.Start(); err != nil {
+		pw.Close()
+		pr.Close()
+		return err
+	}
+	pw.Close()
+	b, _ := io.ReadAll(pr)
+	pr.Close()
+	if err := cmd.Wait(); err != nil {
 		return err
 	}
 	return json.Unmarshal(b, out)
@@ -730,9 +781,11 @@ func runReal(name, prop string) int {
 			out.Findings = append(out.Findings, universal(sc, x, w)...)
 		})
 	}
-	json.NewEncoder(os.Stdout).Encode(out)
+	json.NewEncoder(realStdout).Encode(out)
 	return 0
 }
+
+var realStdout = os.Stdout
 
 // realReplays runs the scenario a few times on the real stack (when the real-socket worker was built) and
 // compares the client-visible outcome with the set the model exploration produced. Evidence only.
